@@ -169,6 +169,8 @@ def exn(e: BaseException) -> str:
     n = type(e).__name__
     if isinstance(e, struct.error):
         return "!CRASH:struct"
+    if isinstance(e, zipfile.BadZipFile):
+        return "!CRASH:zip"
     if n in ("IndexError", "ValueError", "KeyError", "TypeError", "FileError", "FileFormatError", "UnsupportedError"):
         return "!" + n
     return "!CRASH"
